@@ -2,6 +2,7 @@ SPECIFICATION Spec
 CONSTANTS MaxEntries = 3
           MaxX = 2
           MaxSel = 1
+          SecondPair = TRUE
 INVARIANT ExtrapolationOK
 INVARIANT ReplaceScoped
 CHECK_DEADLOCK FALSE
